@@ -103,8 +103,12 @@ class Check:
         self._n = 0
         self.rng = random.Random(self.seed)
         self.thorough = tier == "thorough"
-        kf = os.path.join(VERIF, "known_findings.json")
-        self.known = [k for k in json.load(open(kf))["findings"] if k["property"] == pid] if os.path.exists(kf) else []
+        # known_findings.json: the listed properties; extra_findings.json: the extra checks X01.. (same format)
+        self.known = []
+        for name in ("known_findings.json", "extra_findings.json"):
+            kf = os.path.join(VERIF, name)
+            if os.path.exists(kf):
+                self.known += [k for k in json.load(open(kf))["findings"] if k["property"] == pid]
 
     # ------------------------------------------------------------------ Go side
     def build_vh(self):
@@ -367,10 +371,13 @@ def lint_trace(lines, path):
     for i, l in enumerate(lines):
         if "null" in l and re.search(r'(?<!")\bnull\b(?!")', l):
             raise Infra("trace %s line %d contains JSON null" % (path, i + 1))
+        quotes, pos = 0, 0
         for m in _num.finditer(l):
-            # inside a string? cheap test: count quotes before the match
-            pre = l[:m.start()]
-            if (pre.count('"') - pre.count('\\"')) % 2 == 0 and abs(int(m.group())) >= 2 ** 31:
+            # inside a string? cheap test: count quotes before the match (incrementally: lines can be megabytes long and hold
+            # thousands of digit runs; a match starts with a digit or '-', so no \" pair straddles a segment boundary)
+            quotes += l.count('"', pos, m.start()) - l.count('\\"', pos, m.start())
+            pos = m.start()
+            if quotes % 2 == 0 and abs(int(m.group())) >= 2 ** 31:
                 raise Infra("trace %s line %d carries a number >= 2^31 as a JSON number" % (path, i + 1))
 
 
